@@ -126,11 +126,59 @@ def run_case(c):
     return out
 
 
+TRACED = {}
+
+
+def _code_lines(code, acc):
+    # only function bodies (CO_OPTIMIZED): module and class bodies run at import time, before tracing starts
+    if code.co_flags & 0x1:
+        for _s, _e, ln in code.co_lines():
+            if ln is not None and ln != code.co_firstlineno:
+                acc.add(ln)
+    for k in code.co_consts:
+        if hasattr(k, "co_lines"):
+            _code_lines(k, acc)
+
+
+def start_line_coverage():
+    """line coverage of the three files in scope (sys.settrace, this process only)"""
+    import os
+    files = {}
+    for mod in (TM, MP, sys.modules[RigidBody.__module__]):
+        fn = os.path.realpath(mod.__file__)
+        files[fn] = os.path.basename(fn)
+        TRACED[files[fn]] = set()
+
+    def tracer(frame, event, arg):
+        name = files.get(frame.f_code.co_filename)
+        if name is None:
+            return None
+        if event == "line":
+            TRACED[name].add(frame.f_lineno)
+        return tracer
+    sys.settrace(tracer)
+    return files
+
+
+def executable_lines(files):
+    out = {}
+    for fn, name in files.items():
+        acc = set()
+        _code_lines(compile(open(fn).read(), fn, "exec"), acc)
+        out[name] = sorted(acc)
+    return out
+
+
 def main():
     payload = json.loads(open(sys.argv[1]).read())
+    files = start_line_coverage() if payload.get("coverage") else None
     results = [run_case(c) for c in payload["cases"]]
+    sys.settrace(None)
+    out = {"results": results}
+    if files is not None:
+        out["coverage"] = {"hit": {k: sorted(v) for k, v in TRACED.items()}, "lines": executable_lines(files)}
     with open(sys.argv[2], "w") as fh:
-        json.dump({"results": results}, fh)
+        json.dump(out, fh)
 
 
 if __name__ == "__main__":
